@@ -71,7 +71,9 @@ def cases(tier, seed, rng):
     for x in odd:
         lines.append('usplit %s' % S(x))
         lines.append('uissi %s' % S(x))
-    some = ['mV', 'V', 'kV', 'ms', 's', 'us', 'mV^2', 'V^2', 'mol', 'mmol', 'mmol^2', 'mol^2', 'foo', '', 'mV/s', 'V/s', 'Hz', 'kHz', 'm', 'mm', 'S', 'mS', 'Sv', 'mSv']
+    some = ['mV', 'V', 'kV', 'ms', 's', 'us', 'mV^2', 'V^2', 'mol', 'mmol', 'mmol^2', 'mol^2', 'foo', '', 'mV/s', 'V/s', 'Hz', 'kHz', 'm', 'mm', 'S', 'mS', 'Sv', 'mSv',
+            # one power, several spellings (scalability is symmetric and the factors reciprocal whichever spelling is on which side)
+            'm^1', 'mm^1', 'm^+1', 'km^+1', 'm^2', 'mm^2', 'm^+2', 'mm^+2', 's^-1', 'ms^-1', 'V^1', 'mV^+1', 'Ohm', 'kOhm', 'mOhm', 'Ohm^2', 'kOhm^2']
     for x in some + odd[:20]:
         for y in some:
             lines.append('uscalable %s %s' % (S(x), S(y)))
@@ -123,6 +125,29 @@ def retrieval_lines(tier, rng):
                         if ok2:
                             for sel in ('[]', '[1,0]', '[0,1,1]'):
                                 lines.append('mtag_data [%d] %s %s 1 %s %s %s %s' % (n, dims, lst([f64(pf), f64(p2)]), lst([f64(ef), f64(ef)]), lst([S(req_unit)]), sel, rm))
+    # two dimensions whose request units DIFFER from one another (and from the axes'): every dimension is rescaled with its own pair
+    for _ in range(40 if tier == 'quick' else 600):
+        d = rng.choice([0.25, 1.0, 2.0 ** -10])
+        pairs = [rng.choice([('m', ''), ('u', 'm'), ('m', 'm'), ('', 'k'), ('n', 'u'), ('u', '')]) for _ in range(2)]
+        base = [rng.choice(['s', 'V']) for _ in range(2)]
+        ks = [SI_EXP[pr] - SI_EXP[pa] for pa, pr in pairs]
+        sis = [d * 10.0 ** k for k in ks]
+        if any(Fraction(si) != Fraction(d) * Fraction(10) ** k for si, k in zip(sis, ks)): continue
+        dims = '[%s]' % ','.join('S:%s:~:%s' % (f64(si), S(pa + b)) for si, (pa, pr), b in zip(sis, pairs, base))
+        units = lst([S(pr + b) for (pa, pr), b in zip(pairs, base)])
+        rows = []
+        for _r in range(2):
+            i = [rng.randrange(0, n - 4) for _ in range(2)]; j = [rng.choice([0, 1, 2, 3]) for _ in range(2)]
+            rows.append(([x * d for x in i], [x * d for x in j]))
+        exact = all(Fraction(v * 10.0 ** k) == Fraction(v) * Fraction(10) ** k and Fraction((v + e) * 10.0 ** k) == (Fraction(v) + Fraction(e)) * Fraction(10) ** k
+                    for (ps, es) in rows for v, e, k in zip(ps, es, ks))
+        if not exact: continue
+        pos = lst([';'.join(f64(v) for v in ps) for ps, _e in rows]); ext = lst([';'.join(f64(v) for v in es) for _p, es in rows])
+        for rm in ('incl', 'excl'):
+            for sel in ('[]', '[1,0]'):
+                lines.append('mtag_data [%d,%d] %s %s 0 %s %s %s %s' % (n, n, dims, pos, ext, units, sel, rm))
+            lines.append('mtag_data [%d,%d] %s %s 0 ~ %s [0,1] %s' % (n, n, dims, pos, units, rm))      # points
+            lines.append('tag_data [%d,%d] %s %s %s %s %s' % (n, n, dims, lst([f64(v) for v in rows[0][0]]), lst([f64(v) for v in rows[0][1]]), units, rm))
     # one-sided slices (only a start, or only an end) in a scaled unit on an axis that does not start at 0: the bound that is filled
     # in from the axis is already in the axis unit and must not be rescaled with the given one
     for base in ('s', 'V'):
